@@ -14,6 +14,10 @@ class Context:
     def __init__(self, root="/repo", overlay=None):
         self.root = root
         self.repo = Repo(root, overlay=overlay)
+        from . import facts as _facts
+        _facts.GLOBAL_VARIABLES.clear()
+        for m in self.repo.modules.values():
+            _facts.GLOBAL_VARIABLES.update(k for k in m.globals if k not in m.classes)
         self.res = Resolver(self.repo)
         self.cg = CallGraph(self.repo, self.res)
         self._cfg = {}
